@@ -109,6 +109,8 @@ def value(domain: str, g: L.G) -> dict:
     if domain == 'currency':
         return {'vt': 'str', 'v': g.currency_text()}
     if domain in ('decimal', 'decimal_nonneg_ok'):
+        if g.p(0.06):
+            return {'vt': 'int', 'v': g.n(0, 999)}   # a plain int, as in the documentation's own example (expr.value = 8)
         return {'vt': 'dec', 'v': str(decimal_value(g))}
     if domain == 'indent':
         return {'vt': 'str', 'v': g.chars(' \t', 1, 6)}
@@ -157,6 +159,8 @@ def decode(v: dict) -> Any:
         return datetime.date.fromisoformat(v['v'])
     if vt == 'dec':
         return decimal.Decimal(v['v'])
+    if vt == 'int':
+        return int(v['v'])
     if vt == 'bool':
         return bool(v['v'])
     if vt == 'donor':
